@@ -184,6 +184,7 @@ func ExecKPlan(p *KPlan, trace bool) *core.Result {
 		k.Faults = fs
 	}
 	if p.SeqStart != 0 && p.Scenario != 18 {
+		k.ExemptSeq0 = true
 		if c.realNL != nil {
 			setRealSeq(c.realNL, p.SeqStart)
 		} else {
